@@ -55,11 +55,12 @@ class GraphML:
 
         for e in tree.findall('./g:graph/g:edge', ns):
             data = e.find(f"g:data[@key='{edge_class}']", ns)
-            if not e.attrib.get('label'):
+            # an edge without a Class property (a hand-made input file) has nothing to copy
+            if data is not None and not e.attrib.get('label'):
                 e.set('label', data.text)
         for n in tree.findall('./g:graph/g:node', ns):
             data = n.find(f"g:data[@key='{node_class}']", ns)
-            if not n.attrib.get('labels'):
+            if data is not None and not n.attrib.get('labels'):
                 # to make NetworkX and Neo4j exports as similar as possible
                 # add 'GraphNode' label to all nodes too (neo4j does it)
                 n.set('labels', ':GraphNode:' + data.text)
